@@ -90,3 +90,32 @@ class Values:
         if len(list(astore0.values())) == 0:
             return result is None
         return result is not None and list(result) == list(astore0.values())
+
+
+# ---- TagAdapter: integer ids handed out in order of first use --------------------------------------------------------
+def tag_key(tag):
+    return (tag.term.label, tag.value)
+
+
+def ids_in_order(mapping):
+    """representation invariant of TagAdapter._mapping: the i-th key ever registered has id i (so ids are pairwise distinct
+    and form 0..n-1)"""
+    ids = list(mapping.values())
+    return forall(len(ids), lambda i: ids[i] == i)
+
+
+class TagGetId:
+    target = "soundevent.io.aoef.adapters:DataAdapter.get_id"
+
+    def requires(self, obj, mapping0):
+        return ids_in_order(mapping0)
+
+    def ensures(self, obj, mapping0, sstore0, astore0, k, result):
+        key = tag_key(obj)
+        n0 = len(list(mapping0.values()))
+        # the id already mapped to this (label, value), else the next integer; ids stay in order; no OTHER key has this id
+        return ((result == mapping0[key] if key in mapping0 else result == n0)
+                and 0 <= result and self._mapping.get(key) == result
+                and ids_in_order(self._mapping)
+                and implies(k != key, self._mapping.get(k) == mapping0.get(k) and self._mapping.get(k) != result)
+                and unchanged(self._aoef_store, astore0, k))
